@@ -68,6 +68,40 @@ class BuildError(Exception):
     pass
 
 
+E4_RANKS = 4
+
+
+def make_rank_copies(spec, bdir, core_objs, hobjs):
+    """E4: every rank is a copy of the core's objects with all defined global symbols prefixed by r<k>_."""
+    odir = os.path.join(bdir, 'ranks')
+    os.makedirs(odir, exist_ok=True)
+    r = run(['nm', '-g', '--defined-only'] + core_objs, stdout=subprocess.PIPE, stderr=subprocess.STDOUT)
+    if r.returncode:
+        raise BuildError(r.stdout.decode(errors='replace'))
+    syms = set()
+    for line in r.stdout.decode().splitlines():
+        parts = line.split()
+        if len(parts) == 3:
+            syms.add(parts[2])
+    out = []
+    jobs = []
+    for k in range(E4_RANKS):
+        mp = os.path.join(odir, 'map%d' % k)
+        with open(mp, 'w') as f:
+            for sname in sorted(syms):
+                f.write('%s r%d_%s\n' % (sname, k, sname))
+        for o in core_objs:
+            dst = os.path.join(odir, 'r%d_%s' % (k, os.path.basename(o)))
+            out.append(dst)
+            if not os.path.exists(dst):
+                jobs.append((['objcopy', '--redefine-syms=' + mp, o, dst + '.tmp'], dst))
+    if jobs:
+        parallel_compile(jobs)
+        for _, o in jobs:
+            os.rename(o + '.tmp', o)
+    return out, hobjs
+
+
 def parallel_compile(jobs):
     """jobs: list of (cmd, out). Runs up to ncpu at once. Raises BuildError with compiler output."""
     ncpu = int(os.environ.get('VERIF_JOBS', '16'))
@@ -174,7 +208,8 @@ def build_check(spec):
             o = os.path.join(hdir, f.replace('/', '_')[:-2] + '.o')
             hobjs.append(o)
             if not os.path.exists(o):
-                cmd = ['clang'] + CSTD + SAN + GUARD + extra + spec.get('cflags', []) + ['-Wall', '-Wno-unused-function'] + \
+                cmd = ['clang'] + CSTD + SAN + GUARD + extra + spec.get('cflags', []) + spec.get('file_cflags', {}).get(f, []) + \
+                      ['-Wall', '-Wno-unused-function'] + \
                       ['-I' + i for i in incs] + ['-I' + os.path.join(REPO, 'src'), '-I' + os.path.join(VERIF, 'hx'), '-c',
                                                    os.path.join(VERIF, 'hx', f), '-o', o + '.tmp']
                 jobs.append((cmd, o))
